@@ -343,6 +343,9 @@ func (eng) Generate(mode, tier string, r *hx.Rand) []*hx.Case {
 		n = 6000
 	}
 	var cs []*hx.Case
+	// consecutive seeds of hx.Rand are shifted copies of one sequence: mix two outputs so that seeds give unrelated case sets
+	a, b := r.U64(), r.U64()
+	r = hx.NewRand(a*0x2545F4914F6CDD1D ^ (b >> 11) ^ (b << 29))
 	for i := 0; len(cs) < n; i++ {
 		if c := genCase(r.Fork(), i, tier); c != nil {
 			cs = append(cs, c)
